@@ -74,4 +74,10 @@ if __name__ == "__main__":
         print("HARNESS-ERROR: uncaught exception in the harness")
         rc = 2
     sys.stdout.flush()
+    try:
+        from dsim import runner as _r
+
+        _r._kill_children()
+    except Exception:
+        pass
     os._exit(rc if isinstance(rc, int) else 2)
